@@ -4,6 +4,8 @@
 #include "access.hpp"
 #include <cmath>
 #include <map>
+#include <sys/resource.h>
+#include <time.h>
 
 namespace {
 typedef unsigned long long u64;
@@ -47,40 +49,49 @@ struct Log
     bool byFrames;
     std::ostringstream ev;
     unsigned nRaw, nNote, nDebug, nLoopStart, nLoopEnd;
-    Log() : now(0), frames(0), byFrames(false), nRaw(0), nNote(0), nDebug(0), nLoopStart(0), nLoopEnd(0) {}
+    unsigned long nEntries;     // entries of the current op; only the first CAP are kept (the rest is counted)
+    enum { CAP = 5000 };
+    Log() : now(0), frames(0), byFrames(false), nRaw(0), nNote(0), nDebug(0), nLoopStart(0), nLoopEnd(0), nEntries(0) {}
+    bool rec() { return ++nEntries <= CAP; }
     std::string stamp() { if(byFrames) { std::ostringstream o; o << "f" << frames; return o.str(); } return dy(now); }
-    std::string take() { std::string s = ev.str(); ev.str(""); ev.clear(); return s.empty() ? "-" : s; }
+    std::string take()
+    {
+        std::string s = ev.str(); ev.str(""); ev.clear();
+        if(nEntries > CAP) { std::ostringstream o; o << "+" << (nEntries - CAP); s += o.str(); }
+        nEntries = 0;
+        return s.empty() ? "-" : s;
+    }
 };
 Log *g_log = 0;
 
 void rawHook(void *ud, OPN2_UInt8 type, OPN2_UInt8 subtype, OPN2_UInt8 channel, const OPN2_UInt8 *data, size_t len)
 {
     Log *l = static_cast<Log *>(ud); l->nRaw++;
-    l->ev << "E@" << l->stamp() << "," << (unsigned)type << "," << (unsigned)subtype << "," << (unsigned)channel << "," << toHex(data, len) << ";";
+    if(l->rec()) l->ev << "E@" << l->stamp() << "," << (unsigned)type << "," << (unsigned)subtype << "," << (unsigned)channel << "," << toHex(data, len) << ";";
 }
 void noteHook(void *ud, int adlchn, int note, int ins, int pressure, double bend)
 {
     Log *l = static_cast<Log *>(ud); l->nNote++;
     (void)adlchn; (void)ins; (void)bend;
-    l->ev << "N@" << l->stamp() << "," << note << "," << pressure << ";";
+    if(l->rec()) l->ev << "N@" << l->stamp() << "," << note << "," << pressure << ";";
 }
 void debugHook(void *ud, const char *fmt, ...) { Log *l = static_cast<Log *>(ud); l->nDebug++; (void)fmt; }
-void loopStartHook(void *ud) { Log *l = static_cast<Log *>(ud); l->nLoopStart++; l->ev << "LS@" << l->stamp() << ";"; }
-void loopEndHook(void *ud) { Log *l = static_cast<Log *>(ud); l->nLoopEnd++; l->ev << "LE@" << l->stamp() << ";"; }
+void loopStartHook(void *ud) { Log *l = static_cast<Log *>(ud); l->nLoopStart++; if(l->rec()) l->ev << "LS@" << l->stamp() << ";"; }
+void loopEndHook(void *ud) { Log *l = static_cast<Log *>(ud); l->nLoopEnd++; if(l->rec()) l->ev << "LE@" << l->stamp() << ";"; }
 
 // ---- interposition of the calls the sequencer makes into the synthesizer (what actually reaches it, after gating)
 BW_MidiRtInterface g_orig;
 bool g_wrapped = false;
-void wNoteOn(void *, uint8_t ch, uint8_t n, uint8_t v) { g_log->ev << "R@" << g_log->stamp() << ",9," << (unsigned)ch << "," << (unsigned)n << "," << (unsigned)v << ";"; g_orig.rt_noteOn(g_orig.rtUserData, ch, n, v); }
-void wNoteOff(void *, uint8_t ch, uint8_t n) { g_log->ev << "R@" << g_log->stamp() << ",8," << (unsigned)ch << "," << (unsigned)n << ",0;"; g_orig.rt_noteOff(g_orig.rtUserData, ch, n); }
-void wNoteAT(void *, uint8_t ch, uint8_t n, uint8_t v) { g_log->ev << "R@" << g_log->stamp() << ",10," << (unsigned)ch << "," << (unsigned)n << "," << (unsigned)v << ";"; g_orig.rt_noteAfterTouch(g_orig.rtUserData, ch, n, v); }
-void wChanAT(void *, uint8_t ch, uint8_t v) { g_log->ev << "R@" << g_log->stamp() << ",13," << (unsigned)ch << "," << (unsigned)v << ",0;"; g_orig.rt_channelAfterTouch(g_orig.rtUserData, ch, v); }
-void wCtrl(void *, uint8_t ch, uint8_t t, uint8_t v) { g_log->ev << "R@" << g_log->stamp() << ",11," << (unsigned)ch << "," << (unsigned)t << "," << (unsigned)v << ";"; g_orig.rt_controllerChange(g_orig.rtUserData, ch, t, v); }
-void wPatch(void *, uint8_t ch, uint8_t p) { g_log->ev << "R@" << g_log->stamp() << ",12," << (unsigned)ch << "," << (unsigned)p << ",0;"; g_orig.rt_patchChange(g_orig.rtUserData, ch, p); }
-void wBend(void *, uint8_t ch, uint8_t msb, uint8_t lsb) { g_log->ev << "R@" << g_log->stamp() << ",14," << (unsigned)ch << "," << (unsigned)msb << "," << (unsigned)lsb << ";"; g_orig.rt_pitchBend(g_orig.rtUserData, ch, msb, lsb); }
-void wSysEx(void *, const uint8_t *m, size_t n) { g_log->ev << "X@" << g_log->stamp() << "," << toHex(m, n) << ";"; g_orig.rt_systemExclusive(g_orig.rtUserData, m, n); }
-void wSongStart(void *) { g_log->ev << "SS@" << g_log->stamp() << ";"; g_orig.onSongStart(g_orig.onSongStart_userData); }
-void wDevSwitch(void *, size_t track, const char *data, size_t len) { g_log->ev << "D@" << g_log->stamp() << "," << track << "," << toHex((const uint8_t *)data, len) << ";"; g_orig.rt_deviceSwitch(g_orig.rtUserData, track, data, len); }
+void wNoteOn(void *, uint8_t ch, uint8_t n, uint8_t v) { if(g_log->rec()) g_log->ev << "R@" << g_log->stamp() << ",9," << (unsigned)ch << "," << (unsigned)n << "," << (unsigned)v << ";"; g_orig.rt_noteOn(g_orig.rtUserData, ch, n, v); }
+void wNoteOff(void *, uint8_t ch, uint8_t n) { if(g_log->rec()) g_log->ev << "R@" << g_log->stamp() << ",8," << (unsigned)ch << "," << (unsigned)n << ",0;"; g_orig.rt_noteOff(g_orig.rtUserData, ch, n); }
+void wNoteAT(void *, uint8_t ch, uint8_t n, uint8_t v) { if(g_log->rec()) g_log->ev << "R@" << g_log->stamp() << ",10," << (unsigned)ch << "," << (unsigned)n << "," << (unsigned)v << ";"; g_orig.rt_noteAfterTouch(g_orig.rtUserData, ch, n, v); }
+void wChanAT(void *, uint8_t ch, uint8_t v) { if(g_log->rec()) g_log->ev << "R@" << g_log->stamp() << ",13," << (unsigned)ch << "," << (unsigned)v << ",0;"; g_orig.rt_channelAfterTouch(g_orig.rtUserData, ch, v); }
+void wCtrl(void *, uint8_t ch, uint8_t t, uint8_t v) { if(g_log->rec()) g_log->ev << "R@" << g_log->stamp() << ",11," << (unsigned)ch << "," << (unsigned)t << "," << (unsigned)v << ";"; g_orig.rt_controllerChange(g_orig.rtUserData, ch, t, v); }
+void wPatch(void *, uint8_t ch, uint8_t p) { if(g_log->rec()) g_log->ev << "R@" << g_log->stamp() << ",12," << (unsigned)ch << "," << (unsigned)p << ",0;"; g_orig.rt_patchChange(g_orig.rtUserData, ch, p); }
+void wBend(void *, uint8_t ch, uint8_t msb, uint8_t lsb) { if(g_log->rec()) g_log->ev << "R@" << g_log->stamp() << ",14," << (unsigned)ch << "," << (unsigned)msb << "," << (unsigned)lsb << ";"; g_orig.rt_pitchBend(g_orig.rtUserData, ch, msb, lsb); }
+void wSysEx(void *, const uint8_t *m, size_t n) { if(g_log->rec()) g_log->ev << "X@" << g_log->stamp() << "," << toHex(m, n) << ";"; g_orig.rt_systemExclusive(g_orig.rtUserData, m, n); }
+void wSongStart(void *) { if(g_log->rec()) g_log->ev << "SS@" << g_log->stamp() << ";"; g_orig.onSongStart(g_orig.onSongStart_userData); }
+void wDevSwitch(void *, size_t track, const char *data, size_t len) { if(g_log->rec()) g_log->ev << "D@" << g_log->stamp() << "," << track << "," << toHex((const uint8_t *)data, len) << ";"; g_orig.rt_deviceSwitch(g_orig.rtUserData, track, data, len); }
 
 void wrapRt(OPN2_MIDIPlayer *dev, bool on)
 {
@@ -310,7 +321,7 @@ int comp_api()
             ret << r;
         }
         // ---- sequencer control
-        else if(o == "selectsong" && a.size() == 1) { opn2_selectSongNum(dev, (int)a[0]); ret << "-"; }
+        else if(o == "selectsong" && a.size() == 1) { opn2_selectSongNum(dev, (int)a[0]); ret << "- ev=" << log.take(); showSettings = false; }
         else if(o == "songs") ret << opn2_getSongsCount(dev);
         else if(o == "tracks") ret << opn2_trackCount(dev);
         else if(o == "trackopt" && a.size() == 2) ret << opn2_setTrackOptions(dev, (size_t)a[0], (unsigned)a[1]);
@@ -440,6 +451,12 @@ int comp_api()
         else if(o == "ctl") { ret << ctlState(dev); showSettings = false; }
         else if(o == "evlog") { ret << log.take(); showSettings = false; }
         else if(o == "errinfo") { const char *e = opn2_errorInfo(dev); ret << ((e && *e) ? 1 : 0); showSettings = false; }
+        else if(o == "usage")
+        {
+            struct rusage ru; getrusage(RUSAGE_SELF, &ru);
+            long ms = ru.ru_utime.tv_sec * 1000 + ru.ru_utime.tv_usec / 1000 + ru.ru_stime.tv_sec * 1000 + ru.ru_stime.tv_usec / 1000;
+            ret << "cpu_ms=" << ms << " rss_kb=" << ru.ru_maxrss; showSettings = false;
+        }
         else if(o == "misc")
         {
             // functions without state: must return non-null strings / structures
